@@ -1,13 +1,29 @@
 ENGINES = {
+    'C04': 'sim.engines.c04',
     'C05': 'sim.engines.machine',
+    'C07': 'sim.engines.c07',
 }
 
 ENGINE_TABLE = [
+    {'name': 'E-history', 'path': 'sim/engines/history.py', 'serves_properties': ['C04', 'C07'],
+     'kind_free_text': 'seeded histories of proof-DSL calls (incl. adversarial, inapplicable calls) issued to a real SerializingInterpreter (bare or under MemoizingInterpreter / InstantiationOptimizer) writing to in-memory sinks; lock-step refinement of the emitted bytes against the reference machine R1 and the real Rust checker'},
     {'name': 'E-machine', 'path': 'sim/engines/machine.py', 'serves_properties': ['C05'],
      'kind_free_text': 'seeded instruction streams and stream faults (truncate/overwrite/flip/drop/dup/swap/misroute) driven through the real Rust checker (lib.rs by textual inclusion) stepped per instruction, against the reference machine R1'},
 ]
 
 META = {
+    'C04': {
+        'engine': 'E-history', 'level': 'exploration', 'design_ref': 'DESIGN.md section 4 (C04)',
+        'technique': 'deterministic simulation: seeded call histories against the real stateful/serialising interpreter, lock-step refinement of the emitted byte stream against an executable reference machine after every call',
+        'text': 'After every accepted call of a seeded history the bytes appended by that call are executed by R1 (and, on a sample, by the real Rust checker in lock-step); R1 must not abort and its stack (minus entries the tracker has already published), memory (entry by entry, with Pattern/Proved tag), claim queue and every emitted Load index must equal the tracker state modulo notation expansion and one injective symbol numbering. Histories are sampled, so this is evidence, not proof.',
+        'note': 'Trusted: R1/R3 and the bridge that expands toolkit patterns with the textbook simultaneous instantiation. Refinement relation excludes stack entries left behind by publish_* (pinned behaviour, known finding D13). Known findings D5/D12 (toolkit performs no constraint/capture checks at instantiation) are reported as KNOWN-FINDING.',
+    },
+    'C07': {
+        'engine': 'E-history', 'level': 'exploration', 'design_ref': 'DESIGN.md section 4 (C07)',
+        'technique': 'deterministic simulation: per-call oracle inside seeded call histories with injected inapplicable (adversarial) rule calls, judged against the documented rule computed by an independent model',
+        'text': 'Inside the same histories, with 25-45% adversarial rule calls, each modus_ponens / exists_generalization / instantiate / instantiate_pattern call either raises or the documented rule applies to the premises found on the tracked stack and the returned conclusion equals the rule\'s conclusion exactly (modulo notation expansion). Weak-to-moderate fit: the verdict is a comparison of one call with a model; the simulation contributes premises in the shapes real histories produce, replay and minimisation.',
+        'note': 'Trusted: R3 judgements (documented e_fresh etc.), textbook instantiation. Known findings D5/D12 reported as KNOWN-FINDING.',
+    },
     'C05': {
         'engine': 'E-machine', 'level': 'fault_enumeration', 'design_ref': 'DESIGN.md section 4 (C05)',
         'technique': 'deterministic simulation: seeded instruction streams + enumerated/sampled storage faults, lock-step refinement of the real Rust checker against an executable reference machine',
